@@ -164,8 +164,8 @@ def execute(case):
             "activity": stats, "score": stats["records"], "events": 0}
 
 
-def make_machine(body):
-    prof = profile()
+def make_machine(body, prof=None):
+    prof = prof or profile()
 
     class History(RuleBasedStateMachine):
         def __init__(self):
@@ -262,8 +262,19 @@ def subchecks(tier):
                   rule="generated histories of fresh / reused / noise / interleaved runs over one spec")
     sc.machine = make_machine
     sc.steps = 10
+    # ties inside one node: batches (equal arrival dates) at capacitated pre-emptive slotted nodes and at nodes with timed class changes - any
+    # choice among tied customers that depends on object identity (memory addresses) differs between two runs of one process
+    wt = {"slotted": 0.7, "slot_capacitated": 1.0, "slot_preempt": 1.0, "batching": 1.0, "priorities": 0.5, "cc_waiting": 0.6, "prio_preempt": 0.3, "discipline": 0.3,
+          "self_loops": 0.3, "reneging": 0.3, "schedule": 0.3, "sched_preempt": 0.5, "capacity": 0.2}
+    tie_prof = S.Profile(list(wt), weights=wt, required=("batching",), numeric="grid", max_nodes=2, max_classes=3, plans=("max_time",), horizon=(4.0, 8.0),
+                         budget=1500, load="heavy", long_service=0.4, excluded=common.EXCL["C15"])
+    sc2 = SubCheck("history_ties", execute, strategy=None, n={"quick": 3200, "thorough": 16000}, kind="stateful", is_spec=False,
+                   rule="the same histories over tie-rich models: batch arrivals (customers with equal arrival and class-change dates) at capacitated pre-emptive "
+                        "slotted nodes, timed class changes, pre-emption")
+    sc2.machine = lambda body: make_machine(body, tie_prof)
+    sc2.steps = 8
     iso = SubCheck("process_isolation", isolation_execute, strategy=isolation_case(), n={"quick": 96, "thorough": 1600}, kind="differential", is_spec=False,
                    rule="the target run (seed, T) in a fresh interpreter vs the same run in a fresh interpreter after a prelude of other simulations "
                         "(the same model at another exact precision, an unrelated model, the same model at another seed): digests must be equal; "
                         "non-trivial = target wrote >= 10 records")
-    return [sc, iso]
+    return [sc, sc2, iso]
